@@ -14,10 +14,10 @@ EXTRACT = "ExC06"
 TECHNIQUE = "Coq proof (induction over reply lines; rstrip/partition lemmas) about an executable model of write_response/parse_response/Code.matches/command/parse_command, tied to the code by differential correspondence of the extracted model against the real functions under explicit byte segmentations"
 LEVEL_TEXT = (
     "Theorems C06_decode_encode, C06_mismatch_rejected, C06_mismatch_any_line, C06_matches_spec, C06_command_loop, "
-    "C06_decode_sequence, C06_command_then_command and C06_parse_command_build are proved for every 3-digit code, every LF-free line list of any length and content, both "
-    "framing modes, every following stream and every reply sequence (Closed under the global context). The model is "
+    "C06_decode_sequence, C06_decode_reply_stream(_then), C06_command_then_command and C06_parse_command_build are proved for every 3-digit code, every LF-free line list of any length and content (no bound on line length or reply size), both "
+    "framing modes, every following stream and every reply sequence - decode(encode r1 ++ ... ++ encode rn ++ k) = [r1..rn] ++ decode k, no residue - (Closed under the global context). The model is "
     "hand-written; its tie to the code is a differential correspondence (about 5*10^4 cases per quick run, bounded-exhaustive "
-    "plus random, real bytes under whole/byte-by-byte/random segmentations, utf-8 and seven single-byte code pages incl. a sweep of every byte value each codec can produce), so the assurance is a proof "
+    "plus random, real bytes under whole/byte-by-byte/random/MSS/block segmentations, utf-8 and seven single-byte code pages incl. a sweep of every byte value each codec can produce, a deterministic corpus of reply sizes on and around the block size, its multiples and the 64 KiB stream limits, each sized reply followed by further replies on the same stream, and the same sequences through the real server-side and client-side streams over the in-memory network and loopback TCP incl. whole real server/client sessions), so the assurance is a proof "
     "about the model plus sampled agreement of model and code."
 )
 LEVEL_NOTE = (
@@ -576,15 +576,21 @@ def size_corpus(thorough):
     middle of the reply; both framing modes; sizes counted in characters and (utf-8, 2-byte text) in bytes"""
     primary, secondary = size_bounds()
     cases, idx = [], 0
-    for bound, deltas in [(t, (-3, -2, -1, 0, 1, 2, 3, 700)) for t in primary] + [(t, (-1, 0, 1) if not thorough else (-2, -1, 0, 1, 2)) for t in secondary]:
+    wide = (-3, -2, -1, 0, 1, 2, 3, 700)
+    full = [(1, False, None)] + [(n, m, None) for n in (2, 3, 4, 41, 129) for m in (False, True)] + [(5, False, 3), (6, True, 4)]
+    mid = [(1, False, None), (3, False, None), (3, True, None), (41, True, None), (129, False, None), (129, True, None), (5, False, 3), (6, True, 4)]
+    few = [(1, False, None), (3, True, None), (129, False, None), (6, True, 4)]
+    plan = [(primary[0], wide, full)]
+    if thorough:
+        plan += [(primary[1], wide, full)] + [(t, (-2, -1, 0, 1, 2), full) for t in secondary]
+    else:  # the quick tier keeps every bound and both sides of it, with fewer shapes on the large ones
+        plan += [(primary[1], (-1, 0, 1), mid)] + [(t, (-1, 0, 1), mid if t < primary[1] else few) for t in secondary]
+    for bound, deltas, base_shapes in plan:
         for d in deltas:
             total = bound + d
-            shapes = [(1, False, None)]
-            for n in (2, 3, 4, 41, 129):
-                shapes += [(n, False, None), (n, True, None)]
-            shapes += [(5, False, 3), (6, True, 4)]
+            shapes = list(base_shapes)
             if d == 0:
-                shapes += [(total // 32, False, None), (total // 64, True, None), (total // 8, False, None)]
+                shapes += [(total // 32, False, None), (total // 64, True, None)] + ([(total // 8, False, None)] if thorough or bound <= primary[1] else [])
             for n, lm, reach in shapes:
                 idx += 1
                 unit = FILL_UNITS[idx % len(FILL_UNITS)]
@@ -848,8 +854,10 @@ def transport(ctx, sized):
     primary, _ = size_bounds()
     near = [j for j in jobs if any(abs(sum(len(l.encode(j[1])) for l in r[1]) + framing_overhead(len(r[1]), r[2]) - primary[0]) <= 1 for r in j[0])]
     wire_jobs = (near[:: max(len(near) // 12, 1)] + jobs[-3:]) if not thorough else near + jobs[-20:]
-    n_wire = 0
+    n_wire, t_wire = 0, __import__("time").time()
     for seq, enc, _ in wire_jobs:
+        if __import__("time").time() - t_wire > (120 if thorough else 40):  # a (changed) implementation that stalls: enough seen
+            break
         try:
             outs, sr = run_tcp(lambda: pair_session(seq, enc, 5), 20)
         except Exception as e:
@@ -890,7 +898,14 @@ def correspondence(ctx, budget=None):
         "mask sets that overlap, are shorter/longer than 3 characters or carry non-digit / non-ASCII-digit characters), judged by "
         "spec_commands: first reply matching no wait mask returned, exactly the following ones left for the next command, "
         "(f) server parse_command lines, (g) whole reply sequences (good replies interleaved with rejected ones and, for the "
-        "correspondence only, replies with non-3-digit codes) decoded by successive parse_response calls. A case is non-trivial "
+        "correspondence only, replies with non-3-digit codes) decoded by successive parse_response calls, "
+        "(s) SIZE: a deterministic corpus of replies whose framed size is on / around aioftp.DEFAULT_BLOCK_SIZE, its half and multiples, "
+        "4 KiB and 64 KiB (offsets -3..+3, +700): one long line, 2..129 lines with the LAST line completing the size, the size reached "
+        "mid-reply, many equal short lines summing to it, both modes, sizes in characters and in utf-8 bytes - fed to (a), and, each "
+        "followed by / between / back to back with other replies, to (e) and (g), plus random sized replies, "
+        "(h) the same sequences written by the real Server.write_response on the accepted connection and read by the real client stream "
+        "over the in-memory network (per-write segmenters) and over loopback TCP, and whole real Server/Client sessions in which unknown "
+        "verbs of every length around the block size are answered by the 502 echo and followed by SYST. A case is non-trivial "
         "when distinct (hash of input); trivial = duplicate input."
     )
     servers = {e: aioftp.Server(encoding=e) for e in ENCODINGS}
